@@ -7,3 +7,5 @@ open FormulaeModel
 #print axioms C17.C17_getitem_unknown
 #print axioms C17.C17_hstack_rows
 #print axioms C17.C17_hstack_widths
+#print axioms C17.C17_stack_slices
+#print axioms C17.C17_stack_rows
